@@ -138,10 +138,8 @@ func (p *Path) newArr(elem Sort, n *Term) *Arr {
 
 func (p *Path) makeSlice(fr *Frame, x *ssa.MakeSlice) Value {
 	tt := p.tt
-	ln := p.term(fr, fr.get(x.Len))
-	cp := p.term(fr, fr.get(x.Cap))
-	ln = tt.Sext(ln, 64)
-	cp = tt.Sext(cp, 64)
+	ln := p.idx64(fr, x.Len)
+	cp := p.idx64(fr, x.Cap)
 	ok := tt.And(tt.Cmp(OSle, tt.U64(0), ln), tt.Cmp(OSle, ln, cp))
 	ok = tt.And(ok, tt.Cmp(OSle, cp, tt.U64(1<<48)))
 	p.boundsCheck(fr, ok, "makeslice: len out of range")
@@ -161,7 +159,7 @@ func (p *Path) makeSlice(fr *Frame, x *ssa.MakeSlice) Value {
 func (p *Path) indexAddr(fr *Frame, x *ssa.IndexAddr) Value {
 	tt := p.tt
 	base := fr.get(x.X)
-	idx := tt.Sext(p.term(fr, fr.get(x.Index)), 64)
+	idx := p.idx64(fr, x.Index)
 	switch b := base.(type) {
 	case BSlice:
 		p.boundsCheck(fr, tt.Cmp(OUlt, idx, b.n), "index out of range")
@@ -199,7 +197,7 @@ func (p *Path) concIndex(fr *Frame, idx *Term, n int) int {
 func (p *Path) index(fr *Frame, x *ssa.Index) Value {
 	tt := p.tt
 	base := fr.get(x.X)
-	idx := tt.Sext(p.term(fr, fr.get(x.Index)), 64)
+	idx := p.idx64(fr, x.Index)
 	switch b := base.(type) {
 	case *Arr:
 		p.boundsCheck(fr, tt.Cmp(OUlt, idx, b.n), "index out of range")
@@ -220,13 +218,13 @@ func (p *Path) slice(fr *Frame, x *ssa.Slice) Value {
 	base := fr.get(x.X)
 	var lo, hi, mx *Term
 	if x.Low != nil {
-		lo = tt.Sext(p.term(fr, fr.get(x.Low)), 64)
+		lo = p.idx64(fr, x.Low)
 	}
 	if x.High != nil {
-		hi = tt.Sext(p.term(fr, fr.get(x.High)), 64)
+		hi = p.idx64(fr, x.High)
 	}
 	if x.Max != nil {
-		mx = tt.Sext(p.term(fr, fr.get(x.Max)), 64)
+		mx = p.idx64(fr, x.Max)
 	}
 	switch b := base.(type) {
 	case Str:
@@ -528,7 +526,7 @@ func (p *Path) lookup(fr *Frame, x *ssa.Lookup) Value {
 	base := fr.get(x.X)
 	if s, ok := base.(Str); ok {
 		tt := p.tt
-		idx := tt.Sext(p.term(fr, fr.get(x.Index)), 64)
+		idx := p.idx64(fr, x.Index)
 		p.boundsCheck(fr, tt.Cmp(OUlt, idx, p.strLen(s)), "index out of range (string)")
 		return p.strByte(s, idx)
 	}
@@ -638,4 +636,16 @@ func (p *Path) next(fr *Frame, x *ssa.Next) Value {
 	}
 	mt := x.Iter.(*ssa.Range).X.Type().Underlying().(*types.Map)
 	return Tuple{tt.False(), p.zero(mt.Key()), p.zero(mt.Elem())}
+}
+
+// idx64 widens an index/length operand to 64 bits according to the signedness of its Go type.
+func (p *Path) idx64(fr *Frame, v ssa.Value) *Term {
+	t := p.term(fr, fr.get(v))
+	if t.S.W == 64 {
+		return t
+	}
+	if isSigned(v.Type()) {
+		return p.tt.Sext(t, 64)
+	}
+	return p.tt.Zext(t, 64)
 }
